@@ -52,6 +52,11 @@ def strategy_case(draw):
     c["ab"] = [draw(st.floats(-3, 3, allow_nan=False)), draw(st.floats(-3, 3, allow_nan=False))]
     c["hp"] = draw(st.integers(0, max(0, r - 1)))
     c["hp_sigma"] = draw(sigma_s)
+    if draw(st.booleans()):
+        px = draw(st.floats(0.5, 10, allow_nan=False))
+        # resolutions that map to 1.2 .. min(N)/2 Fourier pixels whichever axis is taken as the box edge
+        fp = draw(st.floats(1.2, max(1.3, nmin / 2 - 0.2), allow_nan=False))
+        c["res_any"] = {"pixel_size": px, "resolution": shape[0] * px / fp, "resolution_hp": shape[0] * px / max(0.6, fp / draw(st.floats(1.6, 4, allow_nan=False)))}
     if cubic and draw(st.booleans()):
         c["pixel_size"] = draw(st.floats(0.5, 10, allow_nan=False))
         c["res_delta"] = draw(st.floats(-0.49, 0.49, allow_nan=False))
@@ -251,5 +256,21 @@ def run(case):
         ok, rr = call(out, "pixels2resolution", lambda: cryomap.pixels2resolution(r, n, px, print_out=False))
         if ok:
             out.check(abs(rr - n * px / r) <= 1e-12 * rr, "resolution:pixels2resolution", f"{rr}")
+    # resolution route, any shape: complement and band relations must hold whatever 'box' means for a non-cubic map
+    if "res_any" in case:
+        px, res = case["res_any"]["pixel_size"], case["res_any"]["resolution"]
+        out.label("resolution_route_any_shape")
+        ok1, lr = call(out, "lowpass", lambda: cryomap.lowpass(x, target_resolution=res, pixel_size=px, gaussian=s))
+        ok2, hr = call(out, "highpass", lambda: cryomap.highpass(x, target_resolution=res, pixel_size=px, gaussian=s))
+        if ok1 and ok2:
+            e = np.abs(lr + hr - x).max()
+            out.check(e < 1e-9 * max(1.0, np.abs(x).max()), "resolution:highpass_not_complement_of_lowpass", f"{e} shape={shape} px={px} res={res}")
+        res_hp = case["res_any"]["resolution_hp"]
+        if res_hp > res * 1.5:
+            okb, br = call(out, "bandpass", lambda: cryomap.bandpass(x, lp_target_resolution=res, hp_target_resolution=res_hp, pixel_size=px, lp_gaussian=s, hp_gaussian=hs))
+            okh, lh = call(out, "lowpass", lambda: cryomap.lowpass(x, target_resolution=res_hp, pixel_size=px, gaussian=hs))
+            if ok1 and okb and okh:
+                e = np.abs(br - (lr - lh)).max()
+                out.check(e < 1e-9 * max(1.0, np.abs(x).max()), "resolution:bandpass_not_difference_of_lowpasses", f"{e} shape={shape}")
     out.check(np.array_equal(x, keep), "input_modified", "after all calls")
     return out
